@@ -129,6 +129,13 @@ func (t *Table) evalEnds(e *gram.Expr, pos int) uint64 {
 		return 0
 	case gram.NT, gram.Sh:
 		return t.Ends[t.G.Body(e).ID][pos]
+	case gram.LTrim:
+		// text.LeftTrim: the maximal run of blanks at pos is skipped when it satisfies the mode, the operand then parses
+		// from its end (only the never-failing mode 2 is admitted for the acceptance oracle, see gx/c04.go)
+		if r, ok := t.skipRun(pos, e.Mode); ok {
+			return t.Ends[e.Kids[0].ID][r]
+		}
+		return 0
 	case gram.Memo, gram.SupErr, gram.Single:
 		// SuppressError changes no result; Single replaces a one-child node by that child (same span): the END
 		// positions are the operand's in both cases
@@ -184,6 +191,25 @@ func (t *Table) evalEnds(e *gram.Expr, pos int) uint64 {
 	return result
 }
 
+// skipRun returns the end of the maximal run of space, tab, line feed, form feed at pos and whether the run satisfies
+// the whitespace mode (0 none, 1 spaces, 2 spaces and new lines, 3 a new line is required).
+func (t *Table) skipRun(pos, mode int) (int, bool) {
+	r, nl := pos, false
+	for r < t.N && (t.W[r] == ' ' || t.W[r] == '\t' || t.W[r] == '\n' || t.W[r] == '\f') {
+		nl = nl || t.W[r] == '\n' || t.W[r] == '\f'
+		r++
+	}
+	switch mode {
+	case 0:
+		return r, r == pos
+	case 1:
+		return r, !nl
+	case 3:
+		return r, nl
+	}
+	return r, true
+}
+
 // canonDepth folds the unbounded depth of repetitions into the finitely many
 // depths that lookup/lenCheck can distinguish.
 func canonDepth(e *gram.Expr, d int) int {
@@ -217,6 +243,12 @@ func (t *Table) evalTrees(e *gram.Expr, pos int) ([]Tree, bool) {
 	case gram.NT, gram.Sh:
 		id := t.G.Body(e).ID
 		return t.Trees[id][pos], t.Over[id][pos]
+	case gram.LTrim:
+		id := e.Kids[0].ID
+		if r, ok := t.skipRun(pos, e.Mode); ok {
+			return t.Trees[id][r], t.Over[id][r]
+		}
+		return nil, false
 	case gram.Memo, gram.SupErr:
 		id := e.Kids[0].ID
 		return t.Trees[id][pos], t.Over[id][pos]
